@@ -26,6 +26,23 @@ rc=$?
 execs=$(grep -ho "stat::number_of_executed_units: [0-9]*" "$ROOT"/fuzz/fuzz-*.log "$log" 2>/dev/null | awk '{s+=$2} END {print s+0}')
 # per-job logs are written to the cwd by libFuzzer (-jobs); collect them
 cat fuzz-*.log >> "$log" 2>/dev/null; rm -f fuzz-*.log
+# record the campaign in the evidence file written by the proptest part of the thorough run
+python3 - "$ROOT/evidence/$id.json" "$secs" "$seed" "$log" <<'PY'
+import json, re, sys
+path, secs, seed, log = sys.argv[1:5]
+try:
+    ev = json.load(open(path))
+except Exception:
+    sys.exit(0)
+txt = open(log, errors="replace").read()
+execs = sum(int(x) for x in re.findall(r"stat::number_of_executed_units: (\d+)", txt))
+if execs == 0:
+    m = re.findall(r"#(\d+)\s+DONE", txt)
+    execs = sum(int(x) for x in m)
+cov = re.findall(r"cov: (\d+)", txt)
+ev["coverage"]["fuzz"] = {"engine": "libFuzzer (cargo-fuzz, ASan) driving the same proptest strategy through the pass-through RNG", "seconds": int(secs), "seed": int(seed), "executions": execs, "max_cov_edges": max([int(c) for c in cov] or [0]), "failures": len(re.findall("VERIF-FUZZ-FAILURE", txt))}
+json.dump(ev, open(path, "w"), indent=1)
+PY
 fail=$(grep -m1 "VERIF-FUZZ-FAILURE" "$log")
 if [ -n "$fail" ]; then
 	replay=$(echo "$fail" | sed -E 's/.*replay=//')
